@@ -24,6 +24,10 @@ type histWorld struct {
 	pendQ   []pendMelt // melt quotes that may still be pending
 	deficit []int64    // per mint: value already reported as lost
 	model   *booksModel
+	alias   map[int]int // harness wallet idx -> model wallet idx (restored wallets)
+	// lock of the P2PK send in progress (for the model's op line)
+	lockOwner  int
+	lockSigAll bool
 }
 
 type pendMelt struct {
@@ -40,7 +44,7 @@ func newHistWorld(c *Ctx, prefix string, fees []uint, nWallets int) (*histWorld,
 	bc := *c // shares Rng, Res and the class table; only the scratch directory differs
 	bc.Scratch = sub
 	b := NewBooks(&bc)
-	hw := &histWorld{b: b, c: c, prefix: prefix}
+	hw := &histWorld{b: b, c: c, prefix: prefix, alias: map[int]int{}}
 	for _, f := range fees {
 		if _, err := b.AddMint(f); err != nil {
 			return nil, err
@@ -166,6 +170,7 @@ func (hw *histWorld) step() {
 		fees := r.Bool()
 		b.begin("send-locked", w.idx, fmt.Sprintf("sendlocked w%d m%d to=w%d %d sigall=%v fees=%v", w.idx, m.idx, to.idx, amt, sigAll, fees))
 		t, err := b.OpSendLocked(w, m, to, amt, sigAll, fees)
+		hw.lockOwner, hw.lockSigAll = to.seed, sigAll
 		hw.model.sendLocked(hw, w, m, amt, fees, t, err)
 		hw.after(fmt.Sprintf("send-locked/%s/sigall=%v/%s", errTag(err), sigAll, feeClass(ppk)))
 	case roll < 54: // receive
@@ -358,7 +363,7 @@ func runHistory(c *Ctx, h int) {
 }
 
 func runWalletHist(c *Ctx) {
-	n := 14
+	n := 8
 	if c.Thorough {
 		n = 220
 	}
@@ -398,7 +403,7 @@ func witnessF12(c *Ctx) {
 		if _, err := w.W.AddMint(m1.url); err != nil {
 			c.Disagree([]string{"C17"}, "f12-addmint", err.Error(), "", nil)
 		}
-		hw.model.resync(hw, "addmint")
+		hw.model.addMint(hw, w, m1)
 		b.begin("mintswap", 0, "mintswap w0 m0->m1 32 ln="+outcome)
 		b.opKind = "mintswap/" + outcome
 		b.hint = "C17/swapProofs/proofs-dropped-on-unpaid-melt"
@@ -429,6 +434,7 @@ func witnessF13(c *Ctx) {
 	for k := 0; k < 2; k++ {
 		b.begin("send-locked", 0, "sendlocked w0 m0 to=w1 8 sigall=true fees=false")
 		t, err := b.OpSendLocked(snd, m0, rcv, 8, true, false)
+		hw.lockOwner, hw.lockSigAll = rcv.seed, true
 		hw.model.sendLocked(hw, snd, m0, 8, false, t, err)
 		hw.after("witness-f13/send-locked/" + errTag(err))
 		if err != nil {
